@@ -163,6 +163,13 @@ fam("bigrows_set", "bigrows", BIGROWS, FOR + "x[i % 4][i] = i", probe_src="x[0]"
 fam("bigrows_opidx", "bigrows", BIGROWS, FOR + "x[i % 4][i] += 1", probe_src="x[0]", div=2, depth=1, C=4, inner=BIG_INNER)
 fam("bigrows_append", "bigrows", BIGROWS, FOR + "x[i % 4] append= i", probe_src="x[0]", div=2, depth=1, C=4, inner=BIG_INNER)
 fam("bigrows_pop", "bigrows", BIGROWS, FOR + "pop x[i % 4]", probe_src="x[0]", div=2, depth=1, C=4, inner=BIG_INNER)
+# --- a dict holding four big rows (payload = one row buffer; the rows are dict VALUES)
+DICTBIG = ["x := {}", "for (r <- 0 til 4) x[r] = list(0 til @N)"]
+fam("dictbig_append", "bigrows", DICTBIG, FOR + "x[i % 4] append= i", probe_src="x[0]", div=2, depth=1, C=4)
+fam("dictbig_concat", "bigrows", DICTBIG, FOR + "x[i % 4] ++= [i]", probe_src="x[0]", div=2, depth=1, C=4)
+fam("dictbig_opidx", "bigrows", DICTBIG, FOR + "x[i % 4][i] += 1", probe_src="x[0]", div=2, depth=1, C=4)
+fam("dictbig_set", "bigrows", DICTBIG, FOR + "x[i % 4][i] = i", probe_src="x[0]", div=2, depth=1, C=4)
+fam("dictbig_pop", "bigrows", DICTBIG, FOR + "pop x[i % 4]", probe_src="x[0]", div=2, depth=1, C=4)
 fam("ctl_bigrows_set", "bigrows", BIGROWS + ["__c := null"], FOR + "(__c = x[i % 4]; x[i % 4][i] = i)", probe_src="x[0]", div=2,
     depth=1, C=4, control=True)
 
